@@ -135,7 +135,8 @@ def graph_case(rng, cid):
                         elif pos in ('param', 'ret'):
                             addr[0] += 16
                             args = [SELF] + ([arg('x', ty_cptr(ty_id('Missing')))] if pos == 'param' else [])
-                            impls[key].append(impl(a, [], [fn(True, 'f', [a_int('address', addr[0])], args, ty_id('Missing') if pos == 'ret' else None)]))
+                            # (also for an 'internal' function, whose wrapper is never emitted: its types are still looked up)
+                            impls[key].append(impl(a, [], [fn(True, rng.choice(['f', 'f', '_f']), [a_int('address', addr[0])], args, ty_id('Missing') if pos == 'ret' else None)]))
                         else:
                             addr[0] += 16
                             xvals[key].append(xval(True, 'g%d' % addr[0], ty_mptr(ty_id('Missing')), [a_int('address', addr[0])]))
